@@ -74,6 +74,11 @@ def snapshot(c):
 
 
 class PoolWorld(HistoryWorld):
+    run_timeout = 60
+
+    def run_timeout_for(self, leg):
+        # ordinary runs take well under 0.2 s; the boundary / deep / huge legs build up to 65 537 cells (seconds)
+        return 20 if leg in ('main', 'interleave') else 120
     name = 'POOL'
     chunk = 20
     real_code = ['pytoniq_core.boc.cell.Cell (constructor, hashes, order, to_boc, copy, begin_parse, to_builder)',
